@@ -54,18 +54,30 @@ def check_stop(ctx, case):
         a_state, a_key = blocks, karg
     a_state = a_state.astype(dt)
     a_key = a_key.astype(dt)
-    s0, k0 = a_state.copy(), a_key.copy()
     f = des.encrypt if mode == 'encrypt' else des.decrypt
     kw = {}
     if rnd is not None:
-        kw = {'at_round': rnd, 'after_step': step}
-        if at_des is not None:
-            kw['at_des'] = at_des
+        kw['at_round'] = rnd
+    if step is not None:
+        kw['after_step'] = des.Steps(step) if case.get('step_enum') else step      # plain int or enumeration member
+    if at_des is not None:
+        kw['at_des'] = at_des
+    if case.get('prime'):
+        # same array objects used by an earlier call with other contents, then overwritten in place
+        s_buf, k_buf = a_state.copy(), a_key.copy()
+        k_buf[...] = np.roll(a_key, 1, axis=-1)
+        s_buf[...] = np.roll(a_state, 3, axis=-1)
+        must(case, 'des.%s (priming call)' % mode, f, s_buf, k_buf, **kw)
+        k_buf[...] = a_key
+        s_buf[...] = a_state
+        a_state, a_key = s_buf, k_buf
+    s0, k0 = a_state.copy(), a_key.copy()
     out = must(case, 'des.%s(%s, form=%d, shape=%s)' % (mode, kw, form, shape), f, a_state, a_key, **kw)
     npass = master.shape[1] // 8
     npass = 1 if npass == 1 else 3
     e_des = (npass - 1) if at_des is None else at_des
-    e_rnd, e_step = (15, 9) if rnd is None else (rnd, step)
+    # documented defaults: last round, last step (final permutation), last DES pass
+    e_rnd, e_step = (15 if rnd is None else rnd), (9 if step is None else step)
     n = max(len(blocks) if shape in ('many-one', 'paired') else 1, len(master) if shape in ('one-many', 'paired') else 1)
     kk = master if shape in ('one-many', 'paired') else np.repeat(master[:1], n, axis=0)
     bb = blocks if shape in ('many-one', 'paired') else np.repeat(blocks[:1], n, axis=0)
@@ -75,15 +87,16 @@ def check_stop(ctx, case):
             mode, at_des, rnd, step, form, shape, np.asarray(out).tolist() if np.size(out) <= 16 else 'shape %s' % (np.shape(out),), exp.tolist() if exp.size <= 16 else '…'), case)
     if not (np.array_equal(a_state, s0) and np.array_equal(a_key, k0)):
         raise Violation('des.%s modified the caller\'s arrays' % mode, case)
-    if rnd is None:
+    if rnd is None and step is None and at_des is None:
         g = des.decrypt if mode == 'encrypt' else des.encrypt
         back = must(case, 'inverse call', g, out, a_key)
         if np.shape(back) != bb.squeeze().shape or not np.array_equal(np.asarray(back).astype('int64'), bb.squeeze().astype('int64')):
             raise Violation('des inverse(%s(x)) != x (form=%d, %s)' % (mode, form, shape), case)
-    inside = rnd is not None and not (e_des == npass - 1 and rnd == 15 and step == 9)
+    inside = not (e_des == npass - 1 and e_rnd == 15 and e_step == 9)
     ctx.case(case, inside or form != 8 or shape in ('one-many', 'paired'),
-             ['mode:' + mode, 'form:%d' % form, 'shape:' + shape, 'dtype:' + dt, 'inside' if inside else 'full'] + (['step:%d' % step] if rnd is not None else []),
-             key=(mode, at_des, rnd, step, shape, form, dt, master, blocks))
+             ['mode:' + mode, 'form:%d' % form, 'shape:' + shape, 'dtype:' + dt, 'inside' if inside else 'full', 'args:%s%s%s' % ('d' if at_des is not None else '-', 'r' if rnd is not None else '-', 's' if step is not None else '-')]
+             + (['step:%d' % step] if step is not None else []) + (['step_as_enum'] if case.get('step_enum') else []) + (['same_arrays_reused'] if case.get('prime') else []),
+             key=(mode, at_des, rnd, step, shape, form, dt, master, blocks, bool(case.get('step_enum')), bool(case.get('prime'))))
 
 
 def _mk(mode, form, at_des, rnd, step, shape, dt, g):
@@ -100,6 +113,13 @@ def _configs(mode):
         deses = [None, 0] if form in (8, 128) else [None, 0, 1, 2]
         for shape in SHAPES:
             yield (mode, form, None, None, None, shape)
+        # one argument left to its default: (at_round omitted, step given) and (round given, after_step omitted), with and without at_des
+        for at_des in deses:
+            for si, step in enumerate(range(10)):
+                yield (mode, form, at_des, None, step, SHAPES[si % len(SHAPES)])
+            for rnd in range(16):
+                yield (mode, form, at_des, rnd, None, SHAPES[rnd % len(SHAPES)])
+            yield (mode, form, at_des, None, None, SHAPES[0])
         for at_des in deses:
             for rnd, step in itertools.product(range(16), range(10)):
                 for shape in SHAPES:
@@ -116,7 +136,10 @@ def unit_enum(ctx, mode, shard, nshards, reps):
             for rep in range(reps):
                 g = gen.rng(ctx.seed, cfg, rep)
                 dt = 'uint8' if (i + rep) % 3 else DTYPES[int(g.integers(len(DTYPES)))]
-                yield _mk(*cfg, dt, g)
+                c = _mk(*cfg, dt, g)
+                c['step_enum'] = bool(g.integers(2)) if cfg[4] is not None else False
+                c['prime'] = bool(g.integers(4) == 0)
+                yield c
     hyp.run_enum(ctx, cases(), check_stop)
 
 
@@ -130,6 +153,12 @@ def stop_cases(draw):
     rnd, step = (None, None) if full else (draw(st.integers(0, 15)), draw(st.integers(0, 9)))
     if full:
         at_des = None
+    else:
+        omit = draw(st.sampled_from(['none', 'none', 'none', 'round', 'step']))
+        if omit == 'round':
+            rnd = None
+        elif omit == 'step':
+            step = None
     shape = draw(st.sampled_from(SHAPES))
     n = 1 if shape == 'one-one' else draw(st.integers(1, 3))
     nk = n if shape in ('one-many', 'paired') else 1
@@ -137,7 +166,8 @@ def stop_cases(draw):
     keys = np.frombuffer(draw(st.binary(min_size=nk * ks, max_size=nk * ks)), dtype='uint8').reshape(nk, ks).copy()
     blocks = np.frombuffer(draw(st.binary(min_size=nb * 8, max_size=nb * 8)), dtype='uint8').reshape(nb, 8).copy()
     return {'kind': 'stop', 'mode': mode, 'form': form, 'at_des': at_des, 'at_round': rnd, 'after_step': step, 'shape': shape,
-            'dtype': draw(st.sampled_from(DTYPES)), 'keys': keys, 'blocks': blocks}
+            'dtype': draw(st.sampled_from(DTYPES)), 'keys': keys, 'blocks': blocks,
+            'step_enum': draw(st.booleans()) if step is not None else False, 'prime': draw(st.booleans())}
 
 
 def unit_generated(ctx, n):
